@@ -88,13 +88,13 @@ CLAIMED = {
             "the next event has arrived. C13_trace/C13_open_first assume keepalive and reconnect off; C13_trace_keepalive lifts C13_trace to any ping interval without a ping timeout. The real "
             "run_forever runs under the scheduler on the same world/plan/schedule; traces must be identical; Spec predicates judge the real trace.",
             "The app consumes already-parsed events (byte level = C02-C07 layer); kernel/SSL buffering as simulated.", "DESIGN.md §6 C13"),
-    "C14": ("Lean 4 theorems C14_once_last, C14_return_value, C14_clean, C14_rerun (all worlds/plans/schedules), C14_terminates, C14_close_args (one connection), C14_closing_is_not_an_error, C14b.C14_close_in_open_clean, C14_rerun_settings" + T_CORR + " incl. second-thread close at every executed line",
+    "C14": ("Lean 4 theorems C14_once_last, C14_return_value, C14_clean, C14_rerun (all worlds/plans/schedules), C14_terminates, C14_close_args (one connection), C14_closing_is_not_an_error, C14b.C14_close_in_open_clean, C14_rerun_settings, C14c.C14_terminates_keepalive / C14_close_args_keepalive (keepalive without a ping timeout), C14d.C14_quiet_once_stopped (once keep_running is off every continuation of the run adds no dial and no error report)" + T_CORR + " incl. second-thread close at every executed line",
             "Proof: on_close once and last, return value, resources gone, re-run = first run, for every world, every callback plan (close / "
             "KeyboardInterrupt / raise anywhere) and schedule; termination and close arguments for one connection with legal traffic. "
             "Second-thread close (C14_async_close_safe) is NOT modelled: checked on real runs only (preemption at ticks and at every executed "
             "line). The former findings F13/F17 (close() inside on_open/on_reconnect; error reported after the application's own close; second-thread race in "
             "teardown) are repaired in /repo (fix: commits, known_findings.json `fixed`); no finding is open.", "", "DESIGN.md §6 C14"),
-    "C15": ("Lean 4 theorems C15_resources (<=1 transport and <=1 ping thread at every prefix, fully general), C15_stops, C15_retry, C15_interval" + T_CORR,
+    "C15": ("Lean 4 theorems C15_resources (<=1 transport and <=1 ping thread at every prefix, fully general), C15_stops, C15_retry, C15_interval, C15b.C15_retry_keepalive, C14d.C15_no_attempt_after_close" + T_CORR,
             "Proof: resource bound for every world/plan/schedule; the reconnect loop does nothing once keep_running is cleared and a server "
             "close frame or close() clears it; retry skeleton and exact interval for failed first attempts followed by any number of failures. "
             "The external dispatcher is not modelled (real runs + Spec only); the former finding F16 (exceptions under an external dispatcher) is repaired in /repo.", "", "DESIGN.md §6 C15"),
